@@ -1,5 +1,5 @@
 ---- MODULE NetFlow9FuzzMC ----
 EXTENDS NetFlow9Fuzz
-SetupsQ == {"norm", "var", "zlen", "zero"}
-SetupsT == {"norm", "var", "zlen", "zero", "opt", "big", "nomod", "var65", "t257"}
+SetupsQ == {"norm", "var", "zlen", "zero", "zopt"}
+SetupsT == {"norm", "var", "zlen", "zero", "opt", "big", "nomod", "var65", "t257", "zopt"}
 ====
